@@ -549,6 +549,53 @@ pub fn stream_families(tier: &str, fams: &[&str], rng: &mut Rng, f: &mut dyn FnM
                     }
                 }
             }
+            "rawcrc" => {
+                // the adversary supplies a matching checksum wherever the decoder might compare one: after *any* body
+                // (not only behind a well-formed end sequence), in particular behind end markers that follow a damaged
+                // or misplaced escape sequence
+                let k = if tier == "thorough" { 8 } else { 6 };
+                let bytes = [0x1bu8, 0, 0x55, 0x1a];
+                for len in 2..=k {
+                    for idx in 0..bytes.len().pow(len as u32) {
+                        let body = seq_by_index(&bytes, len, idx);
+                        if !body.contains(&0x1a) {
+                            continue;
+                        }
+                        let mut t = vec![Tok::Start];
+                        t.extend(body.iter().map(|b| Tok::B(*b)));
+                        t.push(Tok::Crc(0));
+                        f(&expand(&t), 0);
+                    }
+                }
+                let pres = [0x55u8, 0, 0x1b];
+                let fills = [0x1bu8, 0x55, 0x1a, 0, 0x66];
+                for pl in 0..=3usize {
+                    for pi in 0..pres.len().pow(pl as u32) {
+                        let pre = seq_by_index(&pres, pl, pi);
+                        for fl in 0..=3usize {
+                            for fi in 0..fills.len().pow(fl as u32) {
+                                let fill = seq_by_index(&fills, fl, fi);
+                                for pad in 0..=3u8 {
+                                    let mut t = vec![Tok::Start];
+                                    t.extend(pre.iter().map(|b| Tok::B(*b)));
+                                    t.push(Tok::Esc4);
+                                    t.extend(fill.iter().map(|b| Tok::B(*b)));
+                                    t.push(Tok::B(0x1a));
+                                    t.push(Tok::B(pad));
+                                    t.push(Tok::Crc(0));
+                                    let ops = expand(&t);
+                                    f(&ops, 0);
+                                    if pad == 0 && fl == 2 {
+                                        let mut t2 = t.clone();
+                                        t2.push(Tok::Frame(vec![0x42]));
+                                        f(&expand(&t2), ops.len());
+                                    }
+                                }
+                            }
+                        }
+                    }
+                }
+            }
             "padx" => {
                 // end sequences declaring extreme pad counts (the byte comes straight from the wire)
                 let bodies: Vec<Vec<u8>> = vec![vec![], vec![0x55], vec![0, 0, 0, 0], vec![0x55, 0, 0, 0], vec![0x1b, 0x1b, 0x1b], vec![0; 8]];
